@@ -11,6 +11,7 @@ implication from the conditions of the same atomic segment - are not re-decided.
 from __future__ import annotations
 
 import ast
+import re
 import itertools
 from typing import Callable, Dict, List, Optional, Set, Tuple
 
@@ -167,6 +168,7 @@ class Explorer:
         self.recv = recv
         self.split_bool_returns = split_bool_returns
         self._modsum: Dict[str, Set[str]] = {}
+        self.vdeps: Dict[int, tuple] = {}      # uid of an opaque value -> the values its expression read
         self.npaths = 0
         self.handlers: List[Set[str]] = []
         self.root: Optional[FuncInfo] = None
@@ -265,7 +267,11 @@ class Explorer:
             return None
 
     def invalidate(self, st: St, text: str):
-        for k in [k for k in st.facts if text in k]:
+        """forget the facts that mention `text` as a whole name / attribute chain (not as a substring of a longer identifier)"""
+        if not st.facts:
+            return
+        pat = re.compile(r'(?<![\w.])' + re.escape(text) + r'(?!\w)') if not text.startswith('.') else re.compile(re.escape(text) + r'(?!\w)')
+        for k in [k for k in st.facts if pat.search(k)]:
             del st.facts[k]
 
     def on_unknown_effect(self, st: St):
@@ -480,7 +486,9 @@ class Explorer:
     def num_combine(self, lv, rv, sign, node):
         a, b = self.num_of(lv), self.num_of(rv)
         if a is None or b is None:
-            return ('expr', ast.unparse(node)[:60], next(_uid))
+            v = ('expr', ast.unparse(node)[:60], next(_uid))
+            self.vdeps[v[-1]] = (lv, rv)
+            return v
         out = dict(a)
         for k, c in b.items():
             out[k] = out.get(k, 0) + sign * c
@@ -503,8 +511,61 @@ class Explorer:
             return lin.lvar('cap')
         return None
 
+    def note_deps(self, v, node, st: St, extra=()):
+        """remember which values the expression behind the opaque value v read (for dependence questions of the rules)"""
+        if v is None or v[0] not in ('expr', 'callres') or not isinstance(v[-1], int):
+            return
+        deps = list(extra)
+        for x in ast.walk(node):
+            if isinstance(x, (ast.Name, ast.Attribute, ast.Subscript)) and isinstance(getattr(x, 'ctx', None), ast.Load):
+                try:
+                    pv = self.pure_value(x, st)
+                except Exception:
+                    pv = None
+                if pv is not None and pv[0] != 'name':
+                    deps.append(pv)
+        self.vdeps[v[-1]] = tuple(deps)
+
+    def reads_of(self, node, st: St):
+        """the values read by the loads of an expression (names, attribute chains, subscripts)"""
+        out = []
+        for x in ast.walk(node):
+            if isinstance(x, (ast.Name, ast.Attribute, ast.Subscript)) and isinstance(getattr(x, 'ctx', None), ast.Load):
+                try:
+                    pv = self.pure_value(x, st)
+                except Exception:
+                    pv = None
+                if pv is not None and pv[0] != 'name':
+                    out.append(pv)
+        return tuple(out)
+
+    def dep_closure(self, v, seen=None):
+        """all atoms a value (transitively, through opaque expressions) depends on"""
+        seen = seen if seen is not None else set()
+        out = []
+        stack = [v]
+        while stack:
+            x = stack.pop()
+            if not isinstance(x, tuple) or id(x) in seen:
+                continue
+            seen.add(id(x))
+            out.append(x)
+            if x and x[0] in ('expr', 'callres') and isinstance(x[-1], int) and x[-1] in self.vdeps:
+                stack.extend(self.vdeps[x[-1]])
+            for y in x:
+                if isinstance(y, tuple):
+                    stack.append(y)
+        return out
+
     def opaque(self, node, st: St):
         """Evaluate nested calls / yields for their effects, return an opaque value."""
+        res = self._opaque(node, st)
+        for v, s in res:
+            if v != RAISE:
+                self.note_deps(v, node, s)
+        return res
+
+    def _opaque(self, node, st: St):
         outs = [st]
         for sub in ast.iter_child_nodes(node):
             if isinstance(sub, ast.expr) and not isinstance(sub, (ast.GeneratorExp, ast.Lambda, ast.JoinedStr, ast.DictComp, ast.SetComp)) \
@@ -758,6 +819,7 @@ class Explorer:
                     root = root.value
                 root_val = s.env.get(root.id) if isinstance(root, ast.Name) else None
                 self.emit(s, 'xcall', node, name=name, args=tuple(vals), node=node, result=result, root_val=root_val)
+                self.vdeps[result[-1]] = tuple(v for v in vals if isinstance(v, tuple)) + ((root_val,) if root_val else ())
                 res.append((result, s))
         return res
 
@@ -803,8 +865,15 @@ class Explorer:
         default = NONE
         if len(node.args) > 1 and not (isinstance(node.args[1], ast.Constant) and node.args[1].value is None):
             default = ('expr', ast.unparse(node.args[1]), next(_uid))
+        if len(node.args) > 1 and isinstance(node.args[1], ast.Tuple) and all(isinstance(e, ast.Constant) for e in node.args[1].elts):
+            default = ('tuple', tuple(('const', e.value) for e in node.args[1].elts))
         if index_var is not None and isinstance(ge.elt, ast.Name) and ge.elt.id == index_var:
             return [(('lindex', src, found), a), (default, b)]
+        if isinstance(ge.elt, ast.Tuple) and all(isinstance(e, ast.Name) for e in ge.elt.elts) and var is not None \
+                and all(e.id in (var, index_var) for e in ge.elt.elts):
+            # next(((i, t) for i, t in enumerate(L) if P(t)), (None, None)): the pair (index of the token found, the token)
+            tup = tuple(found if e.id == var else ('lindex', src, found) for e in ge.elt.elts)
+            return [(('tuple', tup), a), (default, b)]
         return [(found, a), (default, b)]
 
     def list_op(self, node: ast.Call, L: str, op: str, st: St):
@@ -1021,8 +1090,10 @@ class Explorer:
             bv = self.pure_value(node.value, st)
             if bv is not None:
                 return ('attr', bv, node.attr)
-        l = self.try_lin(node, st) if isinstance(node, (ast.BinOp, ast.Call)) else None
+        l = self.try_lin(node, st) if isinstance(node, (ast.BinOp, ast.Call, ast.UnaryOp)) else None
         if l is not None:
+            if all(k == '1' for k in l):
+                return ('const', l.get('1', 0))
             return ('lin', lin.norm(l))
         return None
 
@@ -1075,6 +1146,12 @@ class Explorer:
             return outs
         if isinstance(node, ast.UnaryOp) and isinstance(node.op, ast.Not):
             return [((not b) if b is not RAISE else RAISE, s) for b, s in self.cond(node.operand, st)]
+        if isinstance(node, ast.Name) and st.env.get(node.id, ('?',))[0] in ('locallist', 'tokenlist') and node.id in st.locallen:
+            # truth of a local list is `len(list) > 0`
+            test = ast.copy_location(ast.Compare(left=ast.Call(func=ast.Name(id='len', ctx=ast.Load()), args=[ast.Name(id=node.id, ctx=ast.Load())], keywords=[]),
+                                                 ops=[ast.Gt()], comparators=[ast.Constant(value=0)]), node)
+            ast.fix_missing_locations(test)
+            return self.cond(test, st)
         t = self.truth(node, st)
         if t is not None:
             return [(t, st)]
@@ -1140,15 +1217,18 @@ class Explorer:
                         self.emit(sx, 'cond', node, node=node, text=key, polarity=b, atoms=list(atoms), synthetic=False)
                         outs.append((b, sx))
             return outs
+        decided = []
         if has_effect:
             states = []
             for v, s in self.ev(node, st):
                 if v == RAISE:
                     states.append((RAISE, s))
+                elif isinstance(node, ast.Call) and v[0] == 'const' and isinstance(v[1], bool):
+                    decided.append((v[1], s))       # an inlined predicate helper returned a constant on this path
                 else:
                     states.append(s)
         key = ast.unparse(node)
-        outs = []
+        outs = list(decided)
         for s in states:
             if isinstance(s, tuple):
                 outs.append((RAISE, s[1]))
@@ -1158,11 +1238,12 @@ class Explorer:
             operands = None
             if isinstance(node, ast.Compare) and len(node.ops) == 1:
                 operands = (type(node.ops[0]).__name__, self.pure_value(node.left, s), self.pure_value(node.comparators[0], s))
+            reads = self.reads_of(node, s)
             s_t = s
             s_f = s.clone()
             for b, s2, atoms in ((True, s_t, atoms_t), (False, s_f, atoms_f)):
                 s2.facts[key] = b
-                self.emit(s2, 'cond', node, node=node, text=key, polarity=b, atoms=atoms, synthetic=False, operands=operands)
+                self.emit(s2, 'cond', node, node=node, text=key, polarity=b, atoms=atoms, synthetic=False, operands=operands, reads=reads)
                 self.learn(node, b, s2)
                 outs.append((b, s2))
         return outs
